@@ -198,6 +198,86 @@ func classifyMapRange(s mapRangeSite) (ok bool, pattern string, why string) {
 		}
 	}
 	stmts(s.rs.Body.List)
+	// calls made from conditions / definitions inside the loop (if dfs(node) { return true }): a closure of the enclosing
+	// function that is started once per entry may keep what it found only in local
+	// bookkeeping; a non-constant value stored into a field or a package-level variable depends on the entry visited first
+	if bad == "" {
+		seenFn := map[ast.Node]bool{}
+		var scanBody func(body *ast.BlockStmt, depth int)
+		scanCalls := func(root ast.Node, depth int) {
+			ast.Inspect(root, func(n ast.Node) bool {
+				call, ok := n.(*ast.CallExpr)
+				if !ok {
+					return true
+				}
+				var body *ast.BlockStmt
+				switch o := identObj(info, call.Fun).(type) {
+				case *types.Var:
+					if _, isSig := o.Type().Underlying().(*types.Signature); isSig && s.fn != nil {
+						ast.Inspect(s.fn.Body, func(m ast.Node) bool {
+							as, ok := m.(*ast.AssignStmt)
+							if !ok {
+								return true
+							}
+							for i, l := range as.Lhs {
+								if identObj(info, l) == types.Object(o) && i < len(as.Rhs) {
+									if fl, ok := ast.Unparen(as.Rhs[i]).(*ast.FuncLit); ok {
+										body = fl.Body
+									}
+								}
+							}
+							return true
+						})
+					}
+				}
+				if body != nil && !seenFn[body] && depth < 4 {
+					seenFn[body] = true
+					scanBody(body, depth+1)
+				}
+				return true
+			})
+		}
+		scanBody = func(body *ast.BlockStmt, depth int) {
+			ast.Inspect(body, func(n ast.Node) bool {
+				as, ok := n.(*ast.AssignStmt)
+				if !ok || as.Tok == token.DEFINE {
+					return true
+				}
+				for i, l := range as.Lhs {
+					longLived := false
+					switch x := ast.Unparen(l).(type) {
+					case *ast.SelectorExpr:
+						if sel := info.Selections[x]; sel != nil && sel.Kind() == types.FieldVal {
+							// the object is one the closure captured (declared outside its body)
+							root := ast.Unparen(x.X)
+							for {
+								if sx, ok := root.(*ast.SelectorExpr); ok {
+									root = ast.Unparen(sx.X)
+								} else if st, ok := root.(*ast.StarExpr); ok {
+									root = ast.Unparen(st.X)
+								} else {
+									break
+								}
+							}
+							if o := identObj(info, root); o != nil && (o.Pos() < body.Pos() || o.Pos() > body.End()) {
+								longLived = true
+							}
+						}
+					case *ast.Ident:
+						if v, ok := info.Uses[x].(*types.Var); ok && v.Parent() == v.Pkg().Scope() {
+							longLived = true
+						}
+					}
+					if longLived && (len(as.Rhs) != len(as.Lhs) || !isConstExpr(as.Rhs[i])) {
+						fail(as, "a closure started once per entry stores a non-constant value into a field / package-level variable (what it records depends on which entry is visited first)")
+					}
+				}
+				return true
+			})
+			scanCalls(body, depth)
+		}
+		scanCalls(s.rs.Body, 0)
+	}
 	if bad != "" {
 		return false, "", bad
 	}
@@ -323,6 +403,8 @@ func checkC11(c *Ctx) {
 	}
 	sites = append(sites, collectMapRanges(su, []string{"pkg/server"}, srvFilter)...)
 	R.min("C11.maprange", 9)
+	c.Core().buildSSA()
+	ruleDictEqByContent(c, c.Core(), "C11.eqcontent")
 	for _, s := range sites {
 		ok, pat, why := classifyMapRange(s)
 		if ok {
